@@ -56,6 +56,11 @@ func Run(instances []*Instance, s *report.Sink) {
 }
 
 func runOne(in *Instance, s *report.Sink) {
+	defer func() {
+		if r := recover(); r != nil {
+			s.Unk("V1", in.Key+"|analyser panic", in.Key, fmt.Sprintf("the analyser failed on this instance: %v", r))
+		}
+	}()
 	if in.Kind == "modflow" {
 		// sibling agreement: a modifier-mode flow must meet the obligations of its base-mode sibling
 		ls := report.NewSink()
